@@ -97,6 +97,29 @@ def run(ctx, res):
             if not metam.col_equal(out[t].to_numpy(), ref[t].to_numpy()):
                 res.add_violation(f"extra-columns:{t}", f"{t} on {impl.iso(o)} changes when unused columns are added: {metam.first_diff(out[t].to_numpy(), ref[t].to_numpy(), keys)}",
                                   dict(kind="extra", date=impl.iso(o), target=t), True)
+        # (c2) unused columns named as another time unit of an internally computed rule (x_y next to the rule x_m)
+        import re
+        sib = {}
+        cands = [n for n in nodes if d["nodes"][n]["kind"]["k"] == "rule" and re.match(r"^(.*)_(y|m|w|d)((_(hh|bg|fg|eg|ehe|sn|wthh))?)$", n)]
+        for n in rnd.sample(cands, min(len(cands), 8 if ctx.tier == "quick" else 40)):
+            m = re.match(r"^(.*)_(y|m|w|d)((_(hh|bg|fg|eg|ehe|sn|wthh))?)$", n)
+            u = rnd.choice([x for x in "ymwd" if x != m.group(2)])
+            name = f"{m.group(1)}_{u}{m.group(3)}"
+            if name not in nodes and name not in df.columns and d["nodes"].get(name, {}).get("kind", {}).get("k") in (None, "timeconv"):
+                sib[name] = n
+        if sib:
+            extra = df.copy()
+            for name in sib:
+                extra[name] = 7.0
+            out, _ = engine.simulate(extra, o, targets=tg)
+            stats["extra_column_runs"] += 1
+            stats["sibling_unit_columns"] = stats.get("sibling_unit_columns", 0) + len(sib)
+            for t in tg:
+                stats["columns_compared"] += 1
+                if not metam.col_equal(out[t].to_numpy(), ref[t].to_numpy()):
+                    res.add_violation(f"extra-columns:{t}", f"{t} on {impl.iso(o)} changes when the unused columns {sorted(sib)[:6]} (other time units of internally "
+                                      f"computed rules) are added: {metam.first_diff(out[t].to_numpy(), ref[t].to_numpy(), keys)}",
+                                      dict(kind="extra", date=impl.iso(o), target=t, columns=sorted(sib)), True)
         # (d) debug, (e) minimal-specification option
         for kw in (dict(debug=True), dict(minimal="warn")):
             out, _ = engine.simulate(df, o, targets=tg, **kw)
